@@ -341,6 +341,9 @@ class FnTags(object):
                             and not is_constant_key(t.slice):
                         # (a store under a constant key is a settings cell - `_TRACE[0] = bool(on)` - not a memo table)
                         self.memo_stores.append((s, t.value.id, t.slice, s.value, env.copy()))
+                elif isinstance(t, ast.Attribute) and not (isinstance(t.value, ast.Name) and t.value.id in ('self', 'cls')):
+                    # obj.attr = value changes obj in place (a keymap handed in by the caller whose `typed` flag is overwritten)
+                    self.sites.append((s, unparse(t.value), self.tags(t.value, env)))
                 else:
                     self.assign(t, s.value, env)
             return env
